@@ -23,14 +23,37 @@ META = {
              "trait kind x comparison mode x handler mix (static _x_changed/_x_fired arity 0-4, "
              "_anytrait_changed, on_trait_change function arity 0-4 and bound method, two observe "
              "handlers) x which handler raises x exception type. distinct_nontrivial = distinct (kind, "
-             "mode, op class, value relation, notified?, raiser) signatures of assignments."),
+             "mode, op class, value relation, notified?, raiser) signatures of assignments. Three further "
+             "strata keep that oracle and vary where the governing trait comes from (16-op histories over "
+             "several names on 1-3 instances of a base class / subclass / a subclass created mid-history; "
+             "every handler records the object and name it was registered for, so calls for another name "
+             "or object are seen): 'wild' = one to three wildcard traits (_, pre_, __, HasPrivateTraits), "
+             "several names born through one prefix by assignment / read / listener registration; 'redef' "
+             "= add_trait over a class, wildcard-made or earlier instance trait (other kind and/or "
+             "comparison mode) and add_trait of new names while static, anytrait, on_trait_change "
+             "(function, bound method, whole-object), observe, @observe and nested observe handlers are "
+             "attached; 'private' = declared names with a leading underscore whose magic-named handlers "
+             "are spelled as the compiler mangles them, over subclass layouts."),
     "phases": [{"name": "main", "flavour": "P", "shards": 16}],
     "gates": {
         "quick": {"evaluations": 20000, "notifying_assignments": 6000, "silent_assignments": 1500,
                   "rejected_assignments": 1500, "reads": 2000, "raising_handler_calls": 1500,
                   "oldnew_checked": 15000, "listeners_leaving_during_delivery": 1200,
                   "listener_owners_dropped_during_delivery": 400,
-                  "listeners_joining_during_delivery": 400, "reused_definitions": 500},
+                  "listeners_joining_during_delivery": 400, "reused_definitions": 500,
+                  "wild_histories": 500, "redef_histories": 500, "private_histories": 150,
+                  "wild_assignments_notifying": 3500, "wild_assignments_silent": 500,
+                  "redef_assignments_notifying": 2500, "redef_assignments_silent": 350,
+                  "private_assignments_notifying": 1000,
+                  "wildcard_names_born_after_a_sibling": 2500,
+                  "assignments_while_several_names_share_a_wildcard_with_static_handlers": 2500,
+                  "redefinitions": 1500, "redefinitions_with_observers_attached": 600,
+                  "changes_after_redefinition_owed_to_observers": 300,
+                  "changes_after_redefinition_owed_to_legacy_handlers": 500,
+                  "new_names_added": 700, "assignments_to_added_names": 250,
+                  "late_subclasses": 300, "assignments_on_late_subclass_instances": 500,
+                  "changes_of_private-name/static-inherited": 80,
+                  "handler_obligations_checked": 20000},
         "thorough": {"evaluations": 4000000, "notifying_assignments": 1500000,
                      "silent_assignments": 400000, "rejected_assignments": 400000, "reads": 500000,
                      "raising_handler_calls": 400000, "oldnew_checked": 4000000,
@@ -39,12 +62,29 @@ META = {
                      "other_trait_assignments": 700000,
                      "listeners_leaving_during_delivery": 300000,
                      "listener_owners_dropped_during_delivery": 100000,
-                     "listeners_joining_during_delivery": 100000, "reused_definitions": 120000},
+                     "listeners_joining_during_delivery": 100000, "reused_definitions": 120000,
+                     "wild_histories": 50000, "redef_histories": 50000, "private_histories": 15000,
+                     "wild_assignments_notifying": 350000, "wild_assignments_silent": 50000,
+                     "redef_assignments_notifying": 250000, "redef_assignments_silent": 35000,
+                     "private_assignments_notifying": 90000,
+                     "wildcard_names_born_after_a_sibling": 250000,
+                     "assignments_while_several_names_share_a_wildcard_with_static_handlers": 250000,
+                     "redefinitions": 150000, "redefinitions_with_observers_attached": 60000,
+                     "changes_after_redefinition_owed_to_observers": 30000,
+                     "changes_after_redefinition_owed_to_legacy_handlers": 50000,
+                     "new_names_added": 70000, "assignments_to_added_names": 25000,
+                     "late_subclasses": 30000, "assignments_on_late_subclass_instances": 50000,
+                     "changes_of_private-name/static-inherited": 7500,
+                     "handler_obligations_checked": 1800000},
     },
     "assumptions": [
         "value pools avoid objects whose == and != are mutually inconsistent (the statement's "
         "'compares unequal' is only well defined when they agree)",
         "del obj.x is not in the statement's alphabet and is not generated",
+        "strata wild/redef give names with a leading underscore no magic-named _name_changed method "
+        "(whether a name-mangled method counts as registered for a wildcard-made name is not settled by "
+        "the statement); stratum private judges them on declared names only",
+        "the value left readable after add_trait replaced a definition is adopted as 'before', not judged",
     ],
 }
 
@@ -142,6 +182,10 @@ DYN_DEFAULTS = {"DynNone": None, "DynObj": SHARED_OBJ, "DynNan": SHARED_NAN, "Dy
 
 
 def pool(kind):
+    return pools()[kind]
+
+
+def pools():
     nan1, nan2 = float("nan"), float("nan")
     x1 = X()
     l1 = [1, 2]
@@ -176,7 +220,7 @@ def pool(kind):
         "DynNan": [SHARED_NAN, SHARED_NAN, nan1, 1.0, SHARED_NAN],
         "DynBadEq": [SHARED_BADEQ, SHARED_BADEQ, BadEq(), 1, SHARED_BADEQ],
         "FactoryObj": [SHARED_OBJ, SHARED_OBJ, x1, None, SHARED_OBJ],
-    }[kind]
+    }
 
 
 EXCS = [RuntimeError, TraitError, ValueError, KeyError, ZeroDivisionError]
@@ -523,6 +567,26 @@ def run(ctx):
                     ctx.sample({"history_batch_from": b, "size": B})
             finally:
                 ctx.end()
+        # strata over the provenance of the governing trait (see _c02_worlds.py): names made by
+        # wildcard traits, and definitions replaced / added at run time with handlers attached
+        from vf.monitors import _c02_worlds
+        BW = 25
+        for si, (stratum, nw) in enumerate((("wild", ctx.scale(900, 100000)),
+                                            ("redef", ctx.scale(900, 100000)),
+                                            ("private", ctx.scale(300, 30000)))):
+            for b in range(0, nw, BW):
+                if not ctx.mine(b // BW + si):
+                    continue
+                if not ctx.begin("%s:%d" % (stratum, b)):
+                    continue
+                try:
+                    for h in range(b, min(nw, b + BW)):
+                        _c02_worlds.run_world(ctx, stratum, h, legacy_errs, obs_errs)
+                        ctx.count("histories")
+                    if b < BW * ctx.nshards:
+                        ctx.sample({"stratum": stratum, "history_batch_from": b, "size": BW})
+                finally:
+                    ctx.end()
     finally:
         obsapi.pop_exception_handler()
         pop_exception_handler()
